@@ -91,7 +91,7 @@ def run(tier):
             lines.append("write 0 file:%s" % src)
         else:
             lines.append("writeseg 0 file:%s %d" % (src, sg))
-        lines += ["close 0", "free 0", "end"]
+        lines += ["wparams 0", "close 0", "free 0", "end"]
         scripts.append("\n".join(lines) + "\n")
     nproc = 12
     parts = ["".join(scripts[i::nproc]) for i in range(nproc)]
@@ -116,7 +116,9 @@ def run(tier):
         owner.append(cid)
         runidx.setdefault((cname, ci), len([t for t in trace if t["op"] == "run"]))
         idx = len([t for t in trace if t["op"] == "run"])
-        lo, hi = writegen.eff_minmax(cfgs[ci])
+        wp = [e for e in ce if e["op"] == "wparams"]
+        avg = wp[0].get("avg", 32768) if wp else 32768         # the average the writer itself aims at (its defaults may change)
+        lo, hi = writegen.eff_minmax(cfgs[ci], avg)
         trace.append({"op": "minmax", "a": idx, "lo": lo, "hi": hi}); owner.append(cid)
         ck.case((cname, ci, str(sg)))
         if len(ck.samples) < 2:
